@@ -86,6 +86,13 @@ func main() {
 		fmt.Println(cnt)
 		return
 	}
+	if *dumpfn == "RESLICE" {
+		w := loadWorld(*repo)
+		for _, ra := range resliceAppends(w.RepoFuncs("compose", "schema", "internal", "flow", "callbacks", "components", "utils")) {
+			fmt.Printf("%s | %s | %s\n", w.fname(origin(ra.fn)), ra.root, w.pos(ra.call.Pos()))
+		}
+		return
+	}
 	if *dumpfn == "LIST" {
 		w := loadWorld(*repo)
 		for _, f := range w.RepoFuncs() {
